@@ -70,10 +70,20 @@ func (r rawVal) Marshal(b *bytes.Buffer) { b.Write(r) }
 func (r rawVal) Bytes() []byte           { return append([]byte(nil), r...) }
 
 // mutVal is a Marshallable the caller goes on changing after it has handed it to the library.
-type mutVal struct{ b []byte }
+type mutVal struct {
+	b []byte
+	// odd: a caller's type whose Bytes() is not the wire form (a summary for logs, say). The interface does not say the
+	// two agree; what travels behind the descriptor, and is signed, is what Marshal writes.
+	odd bool
+}
 
 func (m *mutVal) Marshal(b *bytes.Buffer) { b.Write(m.b) }
-func (m *mutVal) Bytes() []byte           { return append([]byte(nil), m.b...) }
+func (m *mutVal) Bytes() []byte {
+	if m.odd {
+		return []byte(fmt.Sprintf("<%d bytes>", len(m.b)))
+	}
+	return append([]byte(nil), m.b...)
+}
 
 // libVal hands the library a payload the way its users do: when the bytes are a signature database the library can
 // decode and re-encode to the same bytes, as a *signature.SignatureDatabase (with `asDB`), otherwise as raw bytes.
